@@ -46,7 +46,7 @@ var (
 	idVocab   = []string{"p1", "p2", "obs-1", "enc1", "a1b2", "x"}
 	extURLs   = []string{"http://example.org/ext/a", "http://example.org/ext/b", "http://hl7.org/fhir/StructureDefinition/ext-1"}
 	decVocab  = []string{"0", "1", "1.0", "1.50", "-2.25", "100", "0.001", "3.14159", "1e2", "12345.678"}
-	tzVocab   = []string{"Z", "UTC", "+00:00", "-03:30", "-02:30", "+05:30", "+12:45", "+13:45", "+01:00", "-05:00", "+10:30", "+11:00", ""}
+	tzVocab   = []string{"Z", "UTC", "+00:00", "-03:30", "-02:30", "+05:30", "+12:45", "+13:45", "+01:00", "-05:00", "+10:30", "+11:00", "", "GMT", "NST", "IST", "EST"}
 	unitVocab = []string{"mg", "kg", "cm", "m", "s", "min", "h", "d", "wk", "mo", "a", "1"}
 )
 
